@@ -163,6 +163,12 @@ void h_safe(void)
 #ifdef VERIF_WITNESS
     in_bytes = nondet_bytes(); in_buf_size = nondet_u32();
     __CPROVER_assume(in_buf_size <= sizeof(in_bytes.b));
+#if COP_SAFE_CLASS == 2 && !defined(COP_ALLOC_BOUND)  /* bounded search for a replayable input: element count <= 2 */
+    __CPROVER_assume(in_bytes.b[2] <= 2 && in_bytes.b[3] == 0 && in_bytes.b[4] == 0 && in_bytes.b[5] == 0);
+#endif
+#if defined(COP_ALLOC_BOUND)   /* replayable input: the largest request, which the real allocator refuses */
+    __CPROVER_assume(in_bytes.b[2] == 0xff && in_bytes.b[3] == 0xff && in_bytes.b[4] == 0xff && in_bytes.b[5] == 0xff && in_bytes.b[6] == 0 && in_buf_size == 7);
+#endif
     buf_size = in_buf_size;
     uint8_t *wb = malloc(buf_size); __CPROVER_assume(wb);
     memcpy(wb, in_bytes.b, buf_size);
@@ -178,5 +184,203 @@ void h_safe(void)
 #else
     VERIF_COVER(r > 100000);
 #endif
+}
+#endif
+
+#if defined(COP_VIEW_IO)
+/* ---- the adversarial OS (assumed contracts, as stub bodies) ---- */
+int *__errno_location(void) { return &__verif_cop.os_errno; }
+ssize_t nondet_ssize(void);
+
+ssize_t read(int fd, void *buf, size_t count)
+{
+    (void)fd;
+    __CPROVER_assert(count == 0 || __CPROVER_w_ok(buf, count), "OS: read destination valid for count bytes");
+    __verif_cop.rd_calls++;
+    ssize_t r = nondet_ssize();
+    __CPROVER_assume(r >= -1 && (r < 0 || (size_t)r <= count));
+    if (r < 0) {
+        int e = nondet_int();
+        if (e == EINTR) { __CPROVER_assume(__verif_cop.eintr_budget > 0); __verif_cop.eintr_budget--; }
+        __verif_cop.os_errno = e;
+    } else if (r > 0) {
+        /* whatever the peer sent: an arbitrary byte at an ARBITRARY index below r (ghost-index form of
+         * "havoc buf[0..r)": every index is written on some path, so frame and bounds are checked for all of
+         * them; __CPROVER_havoc_slice with a symbolic 64-bit size does not get through the SAT back end).
+         * The byte VALUES a caller sees come from the havoc of read_all's own contract (C16.recv.header). */
+        size_t k = nondet_size();
+        __CPROVER_assume(k < (size_t)r);
+        ((uint8_t *)buf)[k] = nondet_u8();
+        __verif_cop.rd_total += (uint64_t)r;
+    } else if (count > 0) {
+        /* r == 0: end of file, reported as such by read_all */
+    }
+    return r;
+}
+
+ssize_t write(int fd, const void *buf, size_t count)
+{
+    (void)fd;
+    __CPROVER_assert(count == 0 || __CPROVER_r_ok(buf, count), "OS: write source valid for count bytes");
+    __verif_cop.wr_calls++;
+    ssize_t r = nondet_ssize();
+    __CPROVER_assume(r >= -1 && (r < 0 || (size_t)r <= count));
+    if (r < 0) {
+        int e = nondet_int();
+        if (e == EINTR) { __CPROVER_assume(__verif_cop.eintr_budget > 0); __verif_cop.eintr_budget--; }
+        __verif_cop.os_errno = e;
+    } else {
+        /* a write of count > 0 bytes that accepts nothing is a no-progress answer like EINTR: finitely many */
+        if (r == 0 && count > 0) { __CPROVER_assume(__verif_cop.eintr_budget > 0); __verif_cop.eintr_budget--; }
+        __verif_cop.wr_total += (uint64_t)r;
+    }
+    return r;
+}
+
+void h_read_all(void)
+{
+    int fd; void *buf; size_t len;
+    bool ok = read_all(fd, buf, len);
+    VERIF_COVER(ok && len > 100000 && __verif_cop.rd_calls > 1);
+    VERIF_COVER(!ok);
+    VERIF_COVER(ok && len == 0);
+}
+
+void h_write_all(void)
+{
+    int fd; const void *buf; size_t len;
+    bool ok = write_all(fd, buf, len);
+    VERIF_COVER(ok && len > 100000 && __verif_cop.wr_calls > 1);
+    VERIF_COVER(!ok);
+}
+
+uint32_t in_nbytes, in_chunk;
+void h_recv_header(void)
+{
+    int fd; CopMsgHeader *hdr;
+#ifdef VERIF_WITNESS
+    hdr = malloc(sizeof(*hdr)); __CPROVER_assume(hdr);
+#endif
+    bool ok = cop_recv_header(fd, hdr);
+    VERIF_COVER(ok);
+    VERIF_COVER(!ok && __verif_cop.rd_total >= 8);
+    VERIF_COVER(!ok && __verif_cop.rd_total < 8);
+}
+
+void h_recv_payload(void)
+{
+    int fd; void *buf; uint32_t len;
+    bool ok = cop_recv_payload(fd, buf, len);
+    VERIF_COVER(ok && len > 0);
+    VERIF_COVER(!ok);
+}
+
+void h_send(void)
+{
+    int fd; CopMsgType type; const void *payload; uint32_t payload_len;
+    bool ok = cop_send(fd, type, payload, payload_len);
+    VERIF_COVER(ok && payload_len > 0 && payload != NULL);
+    VERIF_COVER(ok && payload == NULL);
+    VERIF_COVER(!ok);
+}
+#endif
+
+#if defined(COP_VIEW_ARRAY)
+/* C15.codec.array : BOUNDED round trip through the REAL serialiser, deserialiser and heap.c (vm_array_new,
+ * vm_array_push, vm_retain linked unmodified); no contracts.  B(depth <= 2, count <= 2 per level, elements:
+ * the five scalar kinds and arrays of scalars). */
+#ifndef VERIF_ARR_N
+#define VERIF_ARR_N 2
+#endif
+static void mk_scalar(NanoValue *v)
+{
+    uint8_t t = nondet_u8(); uint64_t bits = nondet_u64();
+    __CPROVER_assume(COP_IS_SCALAR(t));
+    v->tag = t; memcpy(&v->as, &bits, 8);
+    if (t == TAG_BOOL) v->as.boolean = (bits & 1);
+}
+static VmArray *mk_array(uint32_t n, uint32_t cap)
+{
+    VmArray *a = malloc(sizeof(*a)); __CPROVER_assume(a);
+    a->header.ref_count = 1; a->header.obj_type = TAG_ARRAY;
+    a->elem_type = nondet_u8(); a->length = n; a->capacity = cap;
+    a->elements = malloc(cap * sizeof(NanoValue)); __CPROVER_assume(a->elements);
+    return a;
+}
+static void same_scalar(const NanoValue *x, const NanoValue *y)
+{
+    __CPROVER_assert(x->tag == y->tag, "C15.codec.array element tag");
+    __CPROVER_assert(spec_cop_bits(x, x->tag) == spec_cop_bits(y, y->tag), "C15.codec.array element payload bits");
+}
+void h_art(void)
+{
+    uint32_t n = nondet_u32(); __CPROVER_assume(n <= VERIF_ARR_N);
+    VmArray *a = mk_array(n, VERIF_ARR_N);
+    _Bool nested[VERIF_ARR_N];
+    for (uint32_t i = 0; i < VERIF_ARR_N; i++) {
+        nested[i] = nondet_bool();
+#ifdef VERIF_ARR_FLAT
+        nested[i] = 0;
+#endif
+        if (i < n) {
+            if (nested[i]) {
+                uint32_t m = nondet_u32(); __CPROVER_assume(m <= VERIF_ARR_N);
+                VmArray *in = mk_array(m, VERIF_ARR_N);
+                for (uint32_t j = 0; j < VERIF_ARR_N; j++) if (j < m) mk_scalar(&in->elements[j]);
+                a->elements[i] = val_array(in);
+            } else mk_scalar(&a->elements[i]);
+        }
+    }
+    NanoValue v = val_array(a), w;
+#ifdef VERIF_ARR_CAP
+    uint32_t cap = VERIF_ARR_CAP;
+#else
+    uint32_t cap = nondet_u32(); __CPROVER_assume(cap <= 96);
+#endif
+    uint8_t *buf = malloc(cap); __CPROVER_assume(buf);
+    VmHeap *heap = malloc(sizeof(*heap)); __CPROVER_assume(heap);
+    uint32_t k = cop_serialize_value(&v, buf, cap);
+    if (k != 0) {
+        uint32_t r = cop_deserialize_value(buf, k, &w, heap);
+        __CPROVER_assert(r == k, "C15.codec.array deserialize consumes what serialize produced");
+        __CPROVER_assert(w.tag == TAG_ARRAY && w.as.array != NULL, "C15.codec.array tag");
+        VmArray *b = w.as.array;
+        __CPROVER_assert(b->length == n && b->elem_type == a->elem_type, "C15.codec.array length and element type");
+        for (uint32_t i = 0; i < VERIF_ARR_N; i++) if (i < n) {
+            if (nested[i]) {
+                __CPROVER_assert(b->elements[i].tag == TAG_ARRAY && b->elements[i].as.array != NULL, "C15.codec.array nested tag");
+                VmArray *x = a->elements[i].as.array, *y = b->elements[i].as.array;
+                __CPROVER_assert(y->length == x->length && y->elem_type == x->elem_type, "C15.codec.array nested length and element type");
+                for (uint32_t j = 0; j < VERIF_ARR_N; j++) if (j < x->length) same_scalar(&x->elements[j], &y->elements[j]);
+            } else same_scalar(&a->elements[i], &b->elements[i]);
+        }
+    }
+#ifdef VERIF_ARR_FLAT
+    VERIF_COVER(k != 0 && n == VERIF_ARR_N);
+#else
+    VERIF_COVER(k != 0 && n == VERIF_ARR_N && nested[0] && nested[VERIF_ARR_N - 1]);
+#endif
+    VERIF_COVER(k != 0 && n == 0);
+#ifndef VERIF_ARR_CAP
+    VERIF_COVER(k == 0);
+#endif
+}
+#endif
+
+#if defined(COP_VIEW_OTHER)
+/* C15.other.ser / C15.other.dec : recorded behaviour for non-transferable tags (enforced) */
+void h_oser(void)
+{
+    const NanoValue *val; uint8_t *buf; uint32_t buf_size;
+    uint32_t r = cop_serialize_value(val, buf, buf_size);
+    VERIF_COVER(r == 0);
+    VERIF_COVER(r == 1);
+}
+void h_odec(void)
+{
+    const uint8_t *buf; uint32_t buf_size; NanoValue *out; VmHeap *heap;
+    uint32_t r = cop_deserialize_value(buf, buf_size, out, heap);
+    VERIF_COVER(r == 0);
+    VERIF_COVER(r == 1);
 }
 #endif
